@@ -14,7 +14,7 @@ CHECKS = {
  "C03": ("deterministic simulation: duplicate/concurrent proposals and gossip (fine-mode interleavings) + multiset/index bijection oracle on snapshots",
          "Seeded exploration of repeated, concurrent and cross-node offers of the same transaction, before and after truncation; after every step the multiset of transaction hashes over live+stored vertices and the index<->holder bijection are checked.",
          "snapshots are taken under the ledger lock through the verif hook", "5 C03"),
- "C05": ("deterministic simulation (history clause) + seeded purse-bank sequences and boundary product against math/big (API clause; input generation, labelled as such)",
+ "C05": ("deterministic simulation (history clause) + seeded purse-bank sequences and boundary product (Supply, Drain, Transfer and the constructor New) against math/big (API clause; input generation, labelled as such)",
          "History clause: boundary and non-canonical amounts offered through every entry point of simulated nodes; no non-canonical amount may appear in any snapshot and all balances equal the big-integer reference. API clause: the product of boundary values for single operations (sliced by seed) and seeded transfer sequences on a bank of purses compared with an integer bank.",
          "the API clause is a pure function of its inputs: no schedule or fault is involved there", "5 C05"),
  "C06": ("deterministic simulation: balance probes on evolving multi-tip/truncated ledgers bracketed by equal snapshots + reference set {f(tip)}",
@@ -23,14 +23,14 @@ CHECKS = {
  "C07": ("deterministic simulation with the truncateDiff knob lowered per run: synchronous truncation at seeded points and the real weight-triggered truncation loop (threshold knob), repeated, racing with proposals and gossip; free-text receiver addresses; before/after differential plus always-on snapshot invariants",
          "Truncation is triggered through the hook and, in a third of the truncating runs, by the real runTruncate loop (half of those without any hook trigger) on ledgers of 5-60 vertices with truncateDiff 2-12: nothing confirmed may be lost or change content, by-hash reads must return identical content, the moved set must be ancestor-closed, checkpoint funds must equal the net flow of the stored vertices, balances must not change, re-submission must be refused without effect, a failed truncation must change nothing.",
          "clauses that assume isolation are judged only when nothing else was admitted in the window; ledgers already overdrawn by the C02 finding or the trusted exemption are excluded from the funds/balance clauses", "5 C07"),
- "C08": ("deterministic simulation, fine mode: seeded interleavings of walker vs consumer, counting contexts cancelling after k ancestors, stream consumers racing writers, bursts of concurrent admissions against the truncation loop with a shortened signal channel (knob); bounded-progress, leaked-task and fatal-log oracle",
+ "C08": ("deterministic simulation, fine mode: seeded interleavings of walker vs consumer, counting contexts cancelling after k ancestors, stream consumers racing writers, bursts of concurrent admissions against the truncation loop with a shortened signal channel (knob), fresh nodes joining through the real sync client with the loader and stream buffers scaled down (knob chan_cap) and a vertex the loader refuses mid-stream; bounded-progress, leaked-task and fatal-log oracle",
          "Every operation must return within a simulated-time budget once faults stop, probe operations must still complete afterwards, and no task created inside the graph walker may be left parked. Lock acquisition is simulated (TryLock + parking, pending-writer model), so a wedge is a countable condition instead of a hang.",
          "lock model reproduces mutual exclusion and writer preference, not Go's starvation mode", "5 C08"),
  "C09": ("deterministic simulation: structural invariants of every snapshot of every run (acyclicity, edges vs declared parents, recomputed digests and signatures, weight rule)",
          "After every step on every node the snapshot must be a well-formed DAG of self-authenticating vertices; vertices created by a node are judged against the snapshot taken just before.",
          "digest layout is recomputed independently; a self-consistent layout change is tolerated via the code's own verifier and counted", "5 C09"),
  "C10": ("deterministic simulation with byzantine proposers/peers: forbidden vertices through every entry point + snapshot scan",
-         "Self-sealed, genesis-issued and empty transactions are offered by proposal (notary and ledger API), by gossip from an adversarial sealing key, and via the orphan path; no snapshot may contain them.",
+         "Self-sealed, genesis-issued and empty transactions are offered by proposal (notary and ledger API), by gossip from an adversarial sealing key (canonical and alias spellings of the address), and via the orphan path; a second genesis is offered to live ledgers and an empty genesis to a fresh node; no snapshot may contain any of them.",
          "", "5 C10"),
  "C04": ("deterministic simulation with an in-flight corruption fault: seeded mutations (41 classes) of freshly sealed valid vertices delivered to real nodes through the gossip entry point (genuine copy before/after/never) and, altered in transit, through the DAG sync stream",
          "Every delivered mutant whose decoded content differs from the genuine vertex must be refused by the gossip-add entry point, must leave the ledger unchanged and must never appear in a later snapshot; the genuine copy must still be admitted afterwards; about 60 corrupted or malformed addresses per wallet must resolve to an error or the same key. Three admitted classes are recorded known findings.",
